@@ -15,7 +15,7 @@ REGISTRY = collections.OrderedDict()
 
 class LoopSpec:
     def __init__(self, header=None, vars=None, invariants=None, havoc_fields=(), ghosts=None,
-                 ghost_update=None, ghost_init=None, exit_checks=False):
+                 ghost_update=None, ghost_init=None, exit_checks=False, assume_each=None):
         self.header = header
         self.vars = vars or {}
         self.invariants = invariants or []
@@ -24,6 +24,7 @@ class LoopSpec:
         self.ghost_update = ghost_update
         self.ghost_init = ghost_init
         self.exit_checks = exit_checks
+        self.assume_each = assume_each     # trusted invariant of every element (input well-formedness)
 
 
 class SiteSpec:
